@@ -227,3 +227,32 @@ Proof.
   intros Hc. destruct d as [|d0 d]; [reflexivity|]. unfold mp_hd. destruct (mpl_cur pl) as [p|]; [|congruence].
   unfold mp_part_handle_data. destruct (mpl_mode pl); [reflexivity|]. destruct (mpp_type p); reflexivity.
 Qed.
+
+(* K3 cannot start while data is merely handed over (no line end, no boundary) *)
+Lemma mp_dupb_hd_rev pl d : mp_dupb (mp_hd pl d false) = true -> mp_dupb pl = true.
+Proof.
+  destruct d as [|d0 d]; [exact (fun H => H)|]. unfold mp_dupb, mp_hd.
+  destruct (mpl_cur pl) as [p|] eqn:Ec.
+  - unfold mp_part_handle_data. destruct (mpl_mode pl) eqn:Em.
+    + cbn. rewrite andb_false_r. discriminate.
+    + destruct (mpp_type p) eqn:Et; cbn; rewrite ?Et; try (rewrite andb_false_r; discriminate). exact (fun H => H).
+  - destruct (mpl_bcount pl =? 0); unfold mp_part_handle_data; cbn; rewrite andb_false_r; discriminate.
+Qed.
+
+Lemma mp_fold_hd_concat pieces : forall pl,
+  mp_dupb pl = false ->
+  fold_left (fun a x => mp_hd a x false) pieces pl = mp_hd pl (concat pieces) false.
+Proof.
+  induction pieces as [|x r IH]; intros pl Hd; cbn [fold_left concat]; [reflexivity|].
+  rewrite IH.
+  - apply mp_hd_split_nl. exact Hd.
+  - destruct (mp_dupb (mp_hd pl x false)) eqn:E; [|reflexivity]. apply mp_dupb_hd_rev in E. congruence.
+Qed.
+
+Lemma mp_fold_shd_pl pieces : forall s,
+  fold_left (fun a x => mp_shd a x false) pieces s =
+  mp_set_pl s (fold_left (fun a x => mp_hd a x false) pieces (mps_pl s)).
+Proof.
+  induction pieces as [|x r IH]; intros s; cbn [fold_left]; [destruct s; reflexivity|].
+  rewrite IH. reflexivity.
+Qed.
